@@ -474,3 +474,30 @@ def run_entry(workload, config=None, decisions=None, cache=None, keep_result=Fal
     if keep_result:
         out.result = result
     return out
+
+
+def run_real(workload, num_procs, np_seed=777):
+    """Fidelity sample: the same entry point through the *real* multiprocessing.Pool (no simulated
+    run active, so the Pool seam hands out real pools).  Evidence only - never a verdict."""
+    import pyimpspec
+
+    out = Outcome()
+    data = build_data(workload["data"])
+    kwargs = build_kwargs(workload, data)
+    entry = resolve_entry(workload["entry"])
+    pos = [data]
+    if workload["entry"] in ENTRY_NEEDS_CIRCUIT:
+        pos = [pyimpspec.parse_cdc(workload["circuit"]), data]
+    kwargs["num_procs"] = int(num_procs)
+    np.random.seed(int(np_seed) % (2**32))
+    _pyrandom.seed(int(np_seed))
+    assert simpool.CURRENT is None
+    try:
+        result = entry(*pos, **kwargs)
+        out.status = "ok"
+        out.summary = summarize(result)
+    except Exception as e:  # noqa: BLE001
+        out.status = "exc"
+        out.exc_class = type(e).__name__
+        out.exc_msg = str(e).strip().splitlines()[-1][:200] if str(e).strip() else ""
+    return out
